@@ -123,6 +123,10 @@ def main(argv=None):
                             else: failures.append((name, f))
         for (fname, k_, props_) in g.missing:
             if pid in props_: soft.append((name, k_, 'contracted function no longer exists'))
+        if g.renamed:
+            moved = [(n_, f_) for (n_, f_) in failures if n_ == name and f_.owner in g.renamed]
+            failures = [(n_, f_) for (n_, f_) in failures if not (n_ == name and f_.owner in g.renamed)]
+            soft += [(name, f_.owner, 'the function was alpha-renamed to the pinned local names (rule 27) before verification; failed: %s' % f_.ident()[:120]) for (_, f_) in moved]
         if unknown:
             moved = [(n_, f_) for (n_, f_) in failures if n_ == name]
             failures = [(n_, f_) for (n_, f_) in failures if n_ != name]
